@@ -62,7 +62,7 @@ def r_change_guard(rep, prog):
                             else:
                                 ct = ctm.rvalue(crv)
                             has_cls = any(x[0] == "call" and x[1] == TR + "class" for x in T.walk(ct))
-                            is_eq = (ct[0] == "bin" and ct[1] == "Eq") or (ct[0] == "call" and ct[1].endswith("PartialEq>::eq"))
+                            is_eq = (ct[0] == "bin" and ct[1] == "Eq") or (ct[0] == "call" and ct[1].endswith(("PartialEq>::eq", "PartialEq::eq")))
                             cls = has_cls and is_eq
         rep.check(cls, rule, "change|class-match", "requires class.is_none_or(|k| k == self.class())",
                   "a tree whose class does not match the matcher can be changed", span)
@@ -188,7 +188,7 @@ def r_reserve_before_lower(rep, prog):
                     filt = T.mentions_param(targ, "frame") and (T.mentions_call(targ, "core::option::Option::map") or T.mentions_call(targ, "llfree::FrameId::as_tree"))
                     rep.check(filt, rule, key + "|target-filter", "reservation filtered by the target frame's tree",
                               "a targeted allocation reserves from a slot without filtering by the frame's tree: " + T.show(targ), lt["span"])
-    rep.floor(rule, "Lower::get call sites in LLFree", n, 5)
+    rep.floor(rule, "Lower::get call sites in LLFree", n, 3)
     # the transformers take frames only when the counter suffices
     for fn, amount in ((TR + "steal", "free"), (TR + "reserve_or_steal", "free")):
         b = lib.need_body(prog, fn)
@@ -259,7 +259,7 @@ def r_online_flow(rep, prog):
                                 good = T.canon(T.strip_refs(caps[a0[1]])) == idt
             rep.check(good, rule, "%s|same-id" % cb.name, "fetch_free is evaluated for the tree passed to change_at",
                       "fetch_free is evaluated for a different tree than the one being changed", t["span"])
-    rep.floor(rule, "change_at call sites", n, 2)
+    rep.floor(rule, "change_at call sites", n, 1)
 
 
 def run(rep, programs):
